@@ -101,3 +101,10 @@ def exists(sorts, fn):
     vs = [z3.Const(fresh_name('q'), s) for s in sorts]
     return z3.Exists(vs, fn(*vs))
 I = z3.IntSort()
+
+class Watch:
+    """A function of /repo that the property depends on but that is NOT under contract (outside the verified
+    subset).  Only its source hash is recorded; it is covered by the bounded native search and listed as unverified."""
+    kind = 'watch'; verify = False
+    def __init__(self, file, qual, why):
+        self.file = file; self.qual = qual; self.name = 'watch:' + qual; self.note = 'NOT PROVED (bounded native search only): ' + why
